@@ -311,3 +311,134 @@ def data_query(start_master, stmts, spec, muts, start_catalog=None):
         detail = 'cells that differ: %s' % bad[:4]
     return {'result': r, 'detail': detail, 'model': model, 'solver_s': dt, 'cells': len(disj),
             'vals': vals}
+
+
+# ------------------------------------------------------------------------------ translator validation
+
+def validate_translation(start_master, start_catalog, stmts, sql, spec):
+    """Guard for the SQL -> SMT translation: push one fixed concrete database (NULLs in every
+    nullable column of row 0, distinct non-NULL values in row 1) through (a) real SQLite running the
+    real statements and (b) the SMT interpretation with the cells fixed to the same values; every
+    final cell must agree. -> list of disagreements (empty = translation validated on this program)."""
+    from vlib import dbprog as D
+    from django.db import connections
+    vals = S.Values()
+    st = S.DataState(vals, NROWS)
+    concrete = {}
+    fix = []
+    counter = [10]
+    for (typ, name, tbl, tsql) in start_master:
+        if typ != 'table':
+            continue
+        ps = S.parse_statement(tsql)
+        cols = [c['name'] for c in ps['columns']]
+        nn = set(c['name'] for c in ps['columns'] if c['notnull'] or c['pk'])
+        st.add_symbolic_table(name, cols, nn)
+        fks = dict((f[0], f) for f in start_catalog[name]['fks'])
+        types = dict((c_, i_['type']) for c_, i_ in start_catalog[name]['columns'].items())
+        rows = []
+        for r in range(NROWS):
+            row = {}
+            for c in cols:
+                if c == 'id':
+                    v = r + 1
+                elif c in fks:
+                    v = (r + 1) if (c in nn or r == 1) else None
+                elif r == 0 and c not in nn:
+                    v = None
+                elif types.get(c) in ('datetime', 'date', 'time') and c not in nn:
+                    v = None       # Django's converter for these declared types rejects integers
+                elif types.get(c) == 'bool':
+                    v = r          # Django registers a converter for the declared type bool
+                else:
+                    counter[0] += 1
+                    v = counter[0]
+                row[c] = v
+                n_, v_ = st.tables[name]['rows'][r][c]
+                fix.append(n_ == (v is None))
+                if v is not None:
+                    fix.append(v_ == v)
+            rows.append(row)
+        concrete[name] = rows
+    for (q, params) in stmts:
+        st.run(S.parse_statement(q), params)
+    solver = z3.Solver()
+    solver.add(fix)
+    if str(solver.check()) != 'sat':
+        return ['fixed start database is not a model of the encoding']
+    m = solver.model()
+    # real run
+    conn = connections['default']
+    D.reset_db('default')
+    D.create_tables(D.build_models(spec), 'default')
+    cat = catalog('default')
+    with conn.cursor() as c:
+        c.execute('PRAGMA foreign_keys = OFF')
+        for t, rows in concrete.items():
+            for row in rows:
+                conc = dict((col, _to_db(v, cat[t]['columns'][col]['type'])) for col, v in row.items())
+                cols = list(conc)
+                c.execute('INSERT INTO "%s" (%s) VALUES (%s)' % (
+                    t, ', '.join('"%s"' % x for x in cols), ', '.join(['%s'] * len(cols))),
+                    [conc[x] for x in cols])
+    try:
+        D.execute(sql)
+    except Exception as e:
+        return ['real execution failed on the fixed rows: %s' % str(e)[:150]]
+    out = []
+    with conn.cursor() as c:
+        for t, info in st.tables.items():
+            if info['rows'] is None:
+                continue
+            try:
+                c.execute('SELECT %s FROM "%s" ORDER BY "id"' % (', '.join('"%s"' % x for x in info['cols']), t))
+                got = c.fetchall()
+            except Exception as e:
+                out.append('%s unreadable in the real database: %s' % (t, str(e)[:100]))
+                continue
+            if len(got) != len(info['rows']):
+                out.append('%s: %d real rows vs %d modelled' % (t, len(got), len(info['rows'])))
+                continue
+            # modelled rows are in start order (id 1, 2)
+            for r, real in enumerate(got):
+                for ci, col in enumerate(info['cols']):
+                    n_, v_ = info['rows'][r][col]
+                    isnull = z3.is_true(m.eval(n_, model_completion=True))
+                    want = None if isnull else m.eval(v_, model_completion=True).as_long()
+                    have = _from_db(real[ci], vals)
+                    if want != have:
+                        out.append('%s.%s row %d: real %r vs modelled %r' % (t, col, r, real[ci], want))
+    return out[:6]
+
+
+def _to_db(v, typ):
+    if v is None:
+        return None
+    if 'char' in typ or 'text' in typ:
+        return 'v%d' % v
+    return v
+
+
+def _from_db(v, vals):
+    if v is None:
+        return None
+    if isinstance(v, bool):
+        return int(v)
+    if isinstance(v, str):
+        if v in vals.strs:
+            return vals.strs[v]
+        if v.startswith('v') and v[1:].lstrip('-').isdigit():
+            return int(v[1:])
+        try:
+            return int(v)
+        except ValueError:
+            return ('str', v)
+    if isinstance(v, float) and v == int(v):
+        return int(v)
+    try:
+        import decimal
+        if isinstance(v, decimal.Decimal) and v == int(v):
+            return int(v)
+    except Exception:
+        pass
+    return v
